@@ -149,6 +149,13 @@ def run(ctx):
     pushes = mu.calls(b, r"^std::vec::Vec::<T, A>::push$")
     ans = [(bi, t) for bi, t in pushes if _field_of_first_arg(b, defs, t) == "answers"]
     adds = [(bi, t) for bi, t in pushes if _field_of_first_arg(b, defs, t) == "additional_records"]
+    # `reply.additional_records.extend(set)` moves the same elements as a loop of pushes over the set
+    for bi, t in mu.calls(b, r"^<std::vec::Vec<T, A> as std::iter::Extend<T>>::extend$"):
+        if _field_of_first_arg(b, defs, t) == "additional_records":
+            src = mu.origin_local(b, defs, mu.op_local(t["args"][1]))
+            hs = _ref_base(b, defs, ext_all[0][1]["args"][0]) if ext_all else None
+            if src is not None and hs is not None and src == mu.origin_local(b, defs, hs):
+                adds.append((bi, t))
     report.count(2)
     if len(ans) != 1 or len(adds) != 1:
         viol(report, "C13-R1", b, "pushes", "expected one push to reply.answers and one to reply.additional_records (found %d / %d)" % (len(ans), len(adds)))
